@@ -1,4 +1,5 @@
 import DdoModel.Wf
+import DdoModel.WfRel
 /-! Helper lemmas for C06: a relaxed compilation (no cache, no dominance) keeps a node whose
     value + potential covers the optimum of the sub-problem (`Cover`), hence reports an upper bound. -/
 set_option linter.unusedSectionVars false
@@ -377,7 +378,7 @@ theorem expandOne_has_new (cfg : Cfg S K) (var lidx : Nat) (acc : List (Node S) 
 
 theorem expandOne_ok (cfg : Cfg S K) (var lidx : Nat) (acc : List (Node S) × List (Node S) × List (Call S)) (p : Nat)
     (ks : List (S × Int)) (B M : Int) (hks : acc.1.map key = ks) (hM : ∀ sv ∈ ks, Within M sv.2)
-    (hcost : ∀ s s' d, Within B (cfg.P.cost s s' d))
+    (hcost : ∀ s d, d ∈ cfg.P.domain var s → Within B (cfg.P.cost s (cfg.P.trans s ⟨var, d⟩) ⟨var, d⟩))
     (hall : ∀ m ∈ acc.2.1, NodeOk ks lidx B M m) :
     ∀ m ∈ (expandOne cfg var lidx acc p).2.1, NodeOk ks lidx B M m := by
   obtain ⟨ly, nx, lg⟩ := acc
@@ -390,10 +391,10 @@ theorem expandOne_ok (cfg : Cfg S K) (var lidx : Nat) (acc : List (Node S) × Li
       have hMn : Within M n.value := hM _ (List.mem_of_getElem? hk)
       dsimp only at hall ⊢
       refine branchAll_forall (NodeOk ks lidx B M) cfg var lidx p _ _ (nx, _) hall ?_ ?_
-      · intro d _ m hm
-        exact appendEdge_ok_old ks lidx p B M _ m _ _ hk hMn (hcost _ _ _) hm
-      · intro d _
-        exact appendEdge_ok_fresh ks lidx p B M _ _ _ _ hk hMn (hcost _ _ _)
+      · intro d hd m hm
+        exact appendEdge_ok_old ks lidx p B M _ m _ _ hk hMn (hcost n.state d hd) hm
+      · intro d hd
+        exact appendEdge_ok_fresh ks lidx p B M _ _ _ _ hk hMn (hcost n.state d hd)
     · exact hall
 
 /-! ## `expandAll` -/
@@ -433,7 +434,7 @@ theorem fold_has_new (cfg : Cfg S K) (var lidx : Nat) (cur : List Nat) (acc : Li
 
 theorem fold_ok (cfg : Cfg S K) (var lidx : Nat) (cur : List Nat) (acc : List (Node S) × List (Node S) × List (Call S))
     (ks : List (S × Int)) (B M : Int) (hks : acc.1.map key = ks) (hM : ∀ sv ∈ ks, Within M sv.2)
-    (hcost : ∀ s s' d, Within B (cfg.P.cost s s' d))
+    (hcost : ∀ s d, d ∈ cfg.P.domain var s → Within B (cfg.P.cost s (cfg.P.trans s ⟨var, d⟩) ⟨var, d⟩))
     (hall : ∀ m ∈ acc.2.1, NodeOk ks lidx B M m) :
     ∀ m ∈ (cur.foldl (expandOne cfg var lidx) acc).2.1, NodeOk ks lidx B M m := by
   induction cur generalizing acc with
@@ -1015,6 +1016,117 @@ theorem squash_elim (cfg : Cfg S K) (dd : DD S K) (layer : List (Node S)) (cur :
   · simp only [c1, decide_false, Bool.false_and]
     exact h2 _
 
+/-! ## states of the nodes (for the layer-validity predicate of `WfRel`) -/
+
+theorem expandOne_states (Q : S → Prop) (cfg : Cfg S K) (var lidx : Nat)
+    (acc : List (Node S) × List (Node S) × List (Call S)) (p : Nat) (ks : List (S × Int)) (hks : acc.1.map key = ks)
+    (hpar : ∀ sv, ks[p]? = some sv → ∀ d ∈ cfg.P.domain var sv.1, Q (cfg.P.trans sv.1 ⟨var, d⟩))
+    (hall : ∀ m ∈ acc.2.1, Q m.state) :
+    ∀ m ∈ (expandOne cfg var lidx acc p).2.1, Q m.state := by
+  obtain ⟨ly, nx, lg⟩ := acc
+  cases h : ly[p]? with
+  | none => rw [expandOne_none _ _ _ _ _ _ _ h]; exact hall
+  | some n =>
+    rw [expandOne_some _ _ _ _ _ _ _ n h]
+    split
+    · have hk : ks[p]? = some (key n) := by rw [getElem?_of_map_key ly ks hks p, h]; rfl
+      dsimp only at hall ⊢
+      refine branchAll_forall (fun m => Q m.state) cfg var lidx p _ _ (nx, _) hall ?_ ?_
+      · intro d _ m hm
+        show Q (appendEdge _ m _).state
+        rw [appendEdge_state]; exact hm
+      · intro d hd
+        show Q (appendEdge _ _ _).state
+        rw [appendEdge_state]
+        exact hpar (key n) hk d hd
+    · exact hall
+
+theorem fold_states (Q : S → Prop) (cfg : Cfg S K) (var lidx : Nat) (cur : List Nat)
+    (acc : List (Node S) × List (Node S) × List (Call S)) (ks : List (S × Int)) (hks : acc.1.map key = ks)
+    (hpar : ∀ p ∈ cur, ∀ sv, ks[p]? = some sv → ∀ d ∈ cfg.P.domain var sv.1, Q (cfg.P.trans sv.1 ⟨var, d⟩))
+    (hall : ∀ m ∈ acc.2.1, Q m.state) :
+    ∀ m ∈ (cur.foldl (expandOne cfg var lidx) acc).2.1, Q m.state := by
+  induction cur generalizing acc with
+  | nil => exact hall
+  | cons y ys ih =>
+    rw [List.foldl_cons]
+    exact ih _ (by rw [expandOne_keys]; exact hks) (fun p hp => hpar p (List.mem_cons_of_mem _ hp))
+      (expandOne_states Q cfg var lidx acc y ks hks (hpar y List.mem_cons_self) hall)
+
+theorem states_core (layer layer1 out : List (Node S)) (mpos : Nat) (merged : S)
+    (h1 : ∀ q n1, q ≠ mpos → layer1[q]? = some n1 → n1 ∈ layer)
+    (hm0 : ∃ m0, layer1[mpos]? = some m0 ∧ m0.state = merged) (E : Ext mpos layer1 out) :
+    ∀ (q' : Nat) (n' : Node S), out[q']? = some n' → (∃ n ∈ layer, n'.state = n.state) ∨ n'.state = merged := by
+  intro q' n' hq'
+  by_cases hqm : q' = mpos
+  · subst hqm
+    obtain ⟨m0, hm0, hs0⟩ := hm0
+    obtain ⟨m', hm', hs', _⟩ := E.at_m m0 hm0
+    rw [hq'] at hm'; cases hm'
+    right; rw [hs', hs0]
+  · have ho := E.other q' hqm
+    rw [hq'] at ho
+    cases hl1 : layer1[q']? with
+    | none => rw [hl1] at ho; cases ho
+    | some n1 =>
+      rw [hl1] at ho
+      simp only [Option.map_some, sig, Option.some.injEq, Prod.mk.injEq] at ho
+      left; exact ⟨n1, h1 q' n1 hqm hl1, ho.1⟩
+
+/-- after `relaxLayer` every node carries the state of a node of the original layer, or the merged state -/
+theorem relaxLayer_states (cfg : Cfg S K) (layers : List (List (Node S))) (layer : List (Node S)) (cur : List Nat)
+    (log : List (Call S)) :
+    ∀ (q' : Nat) (n' : Node S), (relaxLayer cfg layers layer cur log).1[q']? = some n' →
+      (∃ n ∈ layer, n'.state = n.state) ∨ n'.state = mergedOf cfg layer cur := by
+  apply relaxLayer_elim cfg layers layer cur log
+    (fun r => ∀ (q' : Nat) (n' : Node S), r.1[q']? = some n' → (∃ n ∈ layer, n'.state = n.state) ∨ n'.state = mergedOf cfg layer cur)
+  · intro hrec d0 lg
+    dsimp only
+    have E : Ext layer.length (layer ++ [freshMerged (mergedOf cfg layer cur) d0]) _ :=
+      (markRelaxed_ext layer.length (layer ++ [freshMerged (mergedOf cfg layer cur) d0]) layer.length).trans
+        (outer_ext cfg layers (mergedOf cfg layer cur) layer.length (restOf cfg layer cur)
+          (markRelaxed (layer ++ [freshMerged (mergedOf cfg layer cur) d0]) layer.length, lg))
+    refine states_core layer (layer ++ [freshMerged (mergedOf cfg layer cur) d0]) _ layer.length _ ?_
+      ⟨_, List.getElem?_concat_length, rfl⟩ E
+    intro q n1 hqm hq1
+    have hlt := lt_of_getElem?_some hq1
+    rw [List.length_append, List.length_singleton] at hlt
+    rw [List.getElem?_append_left (by omega)] at hq1
+    exact List.mem_of_getElem? hq1
+  · intro mp hrec lg
+    have hmn : ∃ n, layer[mp]? = some n ∧ n.state = mergedOf cfg layer cur := by
+      have := List.find?_some hrec
+      cases h : layer[mp]? with
+      | none => rw [h] at this; cases this
+      | some n => rw [h] at this; exact ⟨n, rfl, of_decide_eq_true this⟩
+    dsimp only
+    have E : Ext mp layer _ := (markRelaxed_ext mp layer mp).trans
+      ((outer_ext cfg layers (mergedOf cfg layer cur) mp (restOf cfg layer cur) (markRelaxed layer mp, lg)).trans
+        (undelete_ext mp _ ((sortSquash cfg layer cur).take cfg.width)))
+    exact states_core layer layer _ mp _ (fun q n1 _ hq1 => List.mem_of_getElem? hq1) hmn E
+
+/-- the merged states are states of the layer, and there is at least one -/
+theorem restStates_sub (cfg : Cfg S K) (layer : List (Node S)) (cur : List Nat) :
+    ∀ x ∈ restStatesOf cfg layer cur, ∃ n ∈ layer, x = n.state := by
+  intro x hx
+  unfold restStatesOf at hx
+  obtain ⟨p0, _, hp0⟩ := List.mem_filterMap.mp hx
+  cases hn0 : layer[p0]? with
+  | none => rw [hn0] at hp0; cases hp0
+  | some n0 =>
+    rw [hn0] at hp0
+    simp only [Option.map_some, Option.some.injEq] at hp0
+    exact ⟨n0, List.mem_of_getElem? hn0, hp0.symm⟩
+
+theorem restStates_ne_nil (cfg : Cfg S K) (layer : List (Node S)) (cur : List Nat) (hW : 1 ≤ cfg.width)
+    (hlen : cur.length > cfg.width) (hcur : ∀ p ∈ cur, p < layer.length) : restStatesOf cfg layer cur ≠ [] := by
+  obtain ⟨q0, hq0, hq0c⟩ := rest_nonempty cfg layer cur hW hlen
+  have hlt := hcur q0 hq0c
+  have hu0 : layer[q0]? = some layer[q0] := List.getElem?_eq_getElem hlt
+  apply List.ne_nil_of_mem (a := layer[q0].state)
+  unfold restStatesOf
+  exact List.mem_filterMap.mpr ⟨q0, hq0, by rw [hu0]; rfl⟩
+
 /-! ## the loop invariant -/
 
 /-- `Potential.att` for the merged state of a (non-empty) part of a layer, **for the variable chosen for the
@@ -1044,7 +1156,8 @@ def AttAt (cfg : Cfg S K) (H : Nat → S → EInt) (k var : Nat) (s : S) : Prop 
     h ≤ cfg.P.cost s (cfg.P.trans s ⟨var, d⟩) ⟨var, d⟩ + h'
 
 /-- the invariant of `buildLoop` -/
-structure Inv (H : Nat → S → EInt) (B o : Int) (dd : DD S K) : Prop where
+structure Inv (H : Nat → S → EInt) (V : Nat → S → Prop) (B o : Int) (dd : DD S K) : Prop where
+  valid : ∀ n ∈ dd.next, V dd.depth n.state
   cover : ∃ n ∈ dd.next, ∃ h, H dd.depth n.state = some h ∧ o ≤ n.value + h
   att : dd.layers ≠ [] → ∀ n ∈ dd.next, ∃ a ∈ n.inb, ∃ p, getNode dd.layers a.fromL a.fromP = some p ∧
     n.value = satAdd p.value a.cost
@@ -1053,10 +1166,12 @@ structure Inv (H : Nat → S → EInt) (B o : Int) (dd : DD S K) : Prop where
   rngL : ∀ (i : Nat) ly, dd.layers[i]? = some ly → ∀ n ∈ ly, Within (Bd B i) n.value
 
 /-- what the expansion needs from the squashed layer -/
-structure SqPost (cfg : Cfg S K) (H : Nat → S → EInt) (B o : Int) (dd : DD S K) (var : Nat)
+structure SqPost (cfg : Cfg S K) (H : Nat → S → EInt) (V : Nat → S → Prop) (B o : Int) (dd : DD S K) (var : Nat)
     (layer' : List (Node S)) (cur' : List Nat) : Prop where
-  wit : ∃ q ∈ cur', ∃ n, layer'[q]? = some n ∧ ∃ h, H dd.depth n.state = some h ∧ o ≤ n.value + h ∧
-    AttAt cfg H dd.depth var n.state
+  wit : ∃ q ∈ cur', ∃ n, layer'[q]? = some n ∧ V dd.depth n.state ∧ ∃ h, H dd.depth n.state = some h ∧
+    o ≤ n.value + h ∧ AttAt cfg H dd.depth var n.state
+  kids : ∀ q ∈ cur', ∀ n, layer'[q]? = some n → ∀ d ∈ cfg.P.domain var n.state,
+    V (dd.depth + 1) (cfg.P.trans n.state ⟨var, d⟩)
   rng : ∀ n ∈ layer', Within (Bd B dd.layers.length) n.value
 
 theorem getNode_last (L : List (List (Node S))) (ly : List (Node S)) (p : Nat) :
@@ -1071,7 +1186,7 @@ theorem getNode_lt {L : List (List (Node S))} {l p : Nat} {x : Node S} (h : getN
   | none => rw [h1] at h; cases h
   | some ly => rw [h1] at h; exact ⟨ly, rfl, h⟩
 
-theorem Bd_small {P : Problem S} {R : Relax S} {rv B : Int} (hB : NoClamp P R rv B) {k : Nat} (hk : k ≤ P.nbVars + 1) :
+theorem Bd_small {P : Problem S} {R : Relax S} {rv B : Int} (hB : NoClampDom P R rv B) {k : Nat} (hk : k ≤ P.nbVars + 1) :
     Bd B k ≤ 4611686018427387904 := by
   have h1 := Bd_mono hB.nonneg hk
   have h2 : Bd B (P.nbVars + 1) = ((P.nbVars : Int) + 2) * B := by
@@ -1081,19 +1196,20 @@ theorem Bd_small {P : Problem S} {R : Relax S} {rv B : Int} (hB : NoClamp P R rv
   have := hB.small
   omega
 
-theorem expand_inv (cfg : Cfg S K) (H : Nat → S → EInt) (B o : Int) (dd dd' : DD S K) (var : Nat)
+theorem expand_inv (cfg : Cfg S K) (H : Nat → S → EInt) (V : Nat → S → Prop) (B o : Int) (dd dd' : DD S K) (var : Nat)
     (layer' : List (Node S)) (cur' : List Nat) (lg : List (Call S))
-    (hR : RubOk cfg.R H) (hB : NoClamp cfg.P cfg.R cfg.root.value B)
+    (hR : ∀ k s h, V k s → H k s = some h → h ≤ cfg.R.rub s) (hB : NoClampDom cfg.P cfg.R cfg.root.value B)
     (hclamp : ∀ x, o ≤ x → clamp x > cfg.lb)
     (hlen : dd.layers.length ≤ cfg.P.nbVars)
-    (hI : Inv H B o dd) (hsq : SqPost cfg H B o dd var layer' cur')
+    (hI : Inv H V B o dd) (hsq : SqPost cfg H V B o dd var layer' cur')
     (hl : dd'.layers = dd.layers ++ [(expandAll cfg var dd.layers.length layer' cur' lg).1])
     (hn : dd'.next = (expandAll cfg var dd.layers.length layer' cur' lg).2.1)
-    (hd : dd'.depth = dd.depth + 1) : Inv H B o dd' := by
+    (hd : dd'.depth = dd.depth + 1) : Inv H V B o dd' := by
   unfold expandAll at hl hn
   have hkeys : (cur'.foldl (expandOne cfg var dd.layers.length) (layer', [], lg)).1.map key = layer'.map key :=
     fold_keys cfg var dd.layers.length cur' (layer', [], lg)
-  have hcost : ∀ s s' d, Within B (cfg.P.cost s s' d) := fun s s' d => hB.cost s s' d
+  have hcost : ∀ s d, d ∈ cfg.P.domain var s → Within B (cfg.P.cost s (cfg.P.trans s ⟨var, d⟩) ⟨var, d⟩) :=
+    fun s d hd => hB.cost var s d hd
   have hok : ∀ m ∈ (cur'.foldl (expandOne cfg var dd.layers.length) (layer', [], lg)).2.1,
       NodeOk (layer'.map key) dd.layers.length B (Bd B dd.layers.length) m := by
     refine fold_ok cfg var dd.layers.length cur' (layer', [], lg) (layer'.map key) B (Bd B dd.layers.length) rfl ?_ hcost ?_
@@ -1104,16 +1220,30 @@ theorem expand_inv (cfg : Cfg S K) (H : Nat → S → EInt) (B o : Int) (dd dd' 
   have hlen' : dd'.layers.length = dd.layers.length + 1 := by rw [hl, List.length_append, List.length_singleton]
   have hsmall : Bd B dd.layers.length + B ≤ 4611686018427387904 := by
     rw [← Bd_succ]; exact Bd_small hB (by omega)
-  refine ⟨?_, ?_, ?_, ?_, ?_⟩
-  · obtain ⟨q, hq, n, hnq, h, hH, hle, hatt⟩ := hsq.wit
+  refine ⟨?_, ?_, ?_, ?_, ?_, ?_⟩
+  · intro m hm
+    rw [hn] at hm
+    rw [hd]
+    refine fold_states (V (dd.depth + 1)) cfg var dd.layers.length cur' (layer', [], lg) (layer'.map key) rfl ?_
+      (fun m hm => by cases hm) m hm
+    intro p hp sv hsv d hdm
+    rw [List.getElem?_map] at hsv
+    cases hlp : layer'[p]? with
+    | none => rw [hlp] at hsv; cases hsv
+    | some n0 =>
+      rw [hlp] at hsv
+      simp only [Option.map_some, Option.some.injEq] at hsv
+      subst hsv
+      exact hsq.kids p hp n0 hlp d hdm
+  · obtain ⟨q, hq, n, hnq, hVn, h, hH, hle, hatt⟩ := hsq.wit
     obtain ⟨d, hdm, h', hH', hle'⟩ := hatt h hH
     have hrub : satAdd (cfg.R.rub n.state) n.value > cfg.lb := by
       unfold satAdd; apply hclamp
-      have := hR _ _ _ hH; omega
+      have := hR _ _ _ hVn hH; omega
     obtain ⟨m, hm, hms, hmv⟩ := fold_has_new cfg var dd.layers.length cur' (layer', [], lg) q hq n.state n.value
       (by rw [List.getElem?_map, hnq]; rfl) hrub d hdm
     have hw := hsq.rng n (List.mem_of_getElem? hnq)
-    have hc := hcost n.state (cfg.P.trans n.state ⟨var, d⟩) ⟨var, d⟩
+    have hc := hcost n.state d hdm
     have hsa : satAdd n.value (cfg.P.cost n.state (cfg.P.trans n.state ⟨var, d⟩) ⟨var, d⟩) =
         n.value + cfg.P.cost n.state (cfg.P.trans n.state ⟨var, d⟩) ⟨var, d⟩ := by
       apply satAdd_eq <;> (unfold Within at hw hc; simp only [iMin, iMax]; omega)
@@ -1158,8 +1288,8 @@ theorem expand_inv (cfg : Cfg S K) (H : Nat → S → EInt) (B o : Int) (dd dd' 
 theorem Within.mono {M M' x : Int} (h : Within M x) (hM : M ≤ M') : Within M' x := by
   unfold Within at *; omega
 
-theorem srcOk_of_inv (cfg : Cfg S K) (H : Nat → S → EInt) (B o : Int) (dd : DD S K)
-    (hB : NoClamp cfg.P cfg.R cfg.root.value B) (hI : Inv H B o dd) :
+theorem srcOk_of_inv (cfg : Cfg S K) (H : Nat → S → EInt) (V : Nat → S → Prop) (B o : Int) (dd : DD S K)
+    (hB : NoClampDom cfg.P cfg.R cfg.root.value B) (hI : Inv H V B o dd) :
     SrcOk cfg dd.layers B (Bd B dd.layers.length) := by
   constructor
   · intro l p src c hsrc hc
@@ -1175,43 +1305,57 @@ theorem srcOk_of_inv (cfg : Cfg S K) (H : Nat → S → EInt) (B o : Int) (dd : 
 theorem mem_of_getElem?_range {α : Type} {l : List α} {q : Nat} {a : α} (h : l[q]? = some a) : q ∈ List.range l.length :=
   List.mem_range.mpr (lt_of_getElem?_some h)
 
-theorem sqpost_id (cfg : Cfg S K) (H : Nat → S → EInt) (B o : Int) (dd : DD S K) (var : Nat)
-    (hP : Potential cfg.P H) (hnv : cfg.P.nextVar dd.depth (dd.next.map (·.state)) = some var)
-    (hI : Inv H B o dd) : SqPost cfg H B o dd var dd.next (List.range dd.next.length) := by
+theorem sqpost_id (cfg : Cfg S K) (H : Nat → S → EInt) (V : Nat → S → Prop) (B o : Int) (dd : DD S K) (var : Nat)
+    (hwf : WfRel cfg.P cfg.R H V) (hnv : cfg.P.nextVar dd.depth (dd.next.map (·.state)) = some var)
+    (hI : Inv H V B o dd) : SqPost cfg H V B o dd var dd.next (List.range dd.next.length) := by
   constructor
   · obtain ⟨n, hn, h, hH, hle⟩ := hI.cover
     obtain ⟨q, hq⟩ := List.mem_iff_getElem?.mp hn
-    refine ⟨q, mem_of_getElem?_range hq, n, hq, h, hH, hle, ?_⟩
+    refine ⟨q, mem_of_getElem?_range hq, n, hq, hI.valid n hn, h, hH, hle, ?_⟩
     intro h1 hH1
-    exact hP.att dd.depth _ var n.state h1 hnv (List.mem_map_of_mem hn) hH1
+    exact hwf.att dd.depth _ var n.state h1 hnv (List.mem_map_of_mem hn) (hI.valid n hn) hH1
+  · intro q _ n hq d hd
+    have hn := List.mem_of_getElem? hq
+    exact hwf.vstep dd.depth _ var n.state d hnv (List.mem_map_of_mem hn) (hI.valid n hn) hd
   · exact hI.rngN
 
-theorem sqpost_relax (cfg : Cfg S K) (H : Nat → S → EInt) (B o : Int) (dd : DD S K) (var : Nat) (lg : List (Call S))
-    (hP : Potential cfg.P H) (hM : MergeOk cfg.R H) (hAM : AttMerge cfg.P cfg.R H)
-    (hB : NoClamp cfg.P cfg.R cfg.root.value B) (hW : 1 ≤ cfg.width)
+theorem sqpost_relax (cfg : Cfg S K) (H : Nat → S → EInt) (V : Nat → S → Prop) (B o : Int) (dd : DD S K) (var : Nat)
+    (lg : List (Call S)) (hwf : WfRel cfg.P cfg.R H V)
+    (hB : NoClampDom cfg.P cfg.R cfg.root.value B) (hW : 1 ≤ cfg.width)
     (hnv : cfg.P.nextVar dd.depth (dd.next.map (·.state)) = some var)
     (hlen : dd.layers.length ≤ cfg.P.nbVars)
     (hc1 : (List.range dd.next.length).length > cfg.width) (hc2 : dd.layers.length > 1)
-    (hI : Inv H B o dd) :
-    SqPost cfg H B o dd var (relaxLayer cfg dd.layers dd.next (List.range dd.next.length) lg).1
+    (hI : Inv H V B o dd) :
+    SqPost cfg H V B o dd var (relaxLayer cfg dd.layers dd.next (List.range dd.next.length) lg).1
       (relaxLayer cfg dd.layers dd.next (List.range dd.next.length) lg).2.1 := by
   have hne : dd.layers ≠ [] := by intro h; rw [h] at hc2; simp at hc2
-  have hpost := relaxLayer_spec cfg dd.layers dd.next (List.range dd.next.length) lg hW hc1
-    (fun p hp => List.mem_range.mp hp)
-  have hsrc := srcOk_of_inv cfg H B o dd hB hI
+  have hcur : ∀ p ∈ List.range dd.next.length, p < dd.next.length := fun p hp => List.mem_range.mp hp
+  have hpost := relaxLayer_spec cfg dd.layers dd.next (List.range dd.next.length) lg hW hc1 hcur
+  have hsrc := srcOk_of_inv cfg H V B o dd hB hI
+  -- the merged-away states: a non-empty part of the layer, all valid
+  have hXne := restStates_ne_nil cfg dd.next (List.range dd.next.length) hW hc1 hcur
+  have hXsub : ∀ x ∈ restStatesOf cfg dd.next (List.range dd.next.length), x ∈ dd.next.map (·.state) := by
+    intro x hx
+    obtain ⟨n0, hn0, rfl⟩ := restStates_sub cfg dd.next _ x hx
+    exact List.mem_map_of_mem hn0
+  have hXV : ∀ x ∈ restStatesOf cfg dd.next (List.range dd.next.length), V dd.depth x := by
+    intro x hx
+    obtain ⟨n0, hn0, rfl⟩ := restStates_sub cfg dd.next _ x hx
+    exact hI.valid n0 hn0
+  have hVm : V dd.depth (mergedOf cfg dd.next (List.range dd.next.length)) := hwf.vmerge dd.depth _ hXne hXV
   constructor
   · obtain ⟨u, hu, h, hH, hle⟩ := hI.cover
     obtain ⟨q, hq⟩ := List.mem_iff_getElem?.mp hu
     obtain ⟨q', hq', n', hn', hT⟩ := hpost.transfer q (mem_of_getElem?_range hq) u hq
     refine ⟨q', hq', n', hn', ?_⟩
     rcases hT with ⟨hs, hv⟩ | ⟨hX, hs, harc⟩
-    · refine ⟨h, by rw [hs]; exact hH, by omega, ?_⟩
+    · refine ⟨by rw [hs]; exact hI.valid u hu, h, by rw [hs]; exact hH, by omega, ?_⟩
       intro h1 hH1
       rw [hs] at hH1 ⊢
-      exact hP.att dd.depth _ var u.state h1 hnv (List.mem_map_of_mem hu) hH1
+      exact hwf.att dd.depth _ var u.state h1 hnv (List.mem_map_of_mem hu) (hI.valid u hu) hH1
     · obtain ⟨a, ha, p, hp, hv⟩ := hI.att hne u hu
-      obtain ⟨h', hH', hle'⟩ := hM dd.depth (restStatesOf cfg dd.next (List.range dd.next.length)) u.state p.state
-        a.dec a.cost h hX hH
+      obtain ⟨h', hH', hle'⟩ := hwf.merge dd.depth (restStatesOf cfg dd.next (List.range dd.next.length)) u.state p.state
+        a.dec a.cost h hX hXV hH
       have hge := harc a ha p hp
       have hac : Within B a.cost := hI.arcs u hu a ha
       have hrc := hsrc.rel p.state u.state (mergedOf cfg dd.next (List.range dd.next.length)) a.dec a.cost hac
@@ -1229,62 +1373,68 @@ theorem sqpost_relax (cfg : Cfg S K) (H : Nat → S → EInt) (B o : Int) (dd : 
           = p.value + cfg.R.relax p.state u.state (mergedOf cfg dd.next (List.range dd.next.length)) a.dec a.cost := by
         apply satAdd_eq <;> (unfold Within at hw hrc; simp only [iMin, iMax]; omega)
       have hH'' : H dd.depth n'.state = some h' := by rw [hs]; exact hH'
-      refine ⟨h', hH'', ?_, ?_⟩
+      refine ⟨by rw [hs]; exact hVm, h', hH'', ?_, ?_⟩
       · rw [e2] at hge; rw [e1] at hv
         unfold mergedOf at hge
         omega
       · intro h1' hH1
         rw [hs] at hH1 ⊢
-        refine hAM dd.depth (dd.next.map (·.state)) var _ h1' hnv (List.ne_nil_of_mem hX) ?_ hH1
-        intro x hx
-        unfold restStatesOf at hx
-        obtain ⟨p0, _, hp0⟩ := List.mem_filterMap.mp hx
-        cases hn0 : dd.next[p0]? with
-        | none => rw [hn0] at hp0; cases hp0
-        | some n0 =>
-          rw [hn0] at hp0
-          simp only [Option.map_some, Option.some.injEq] at hp0
-          rw [← hp0]
-          exact List.mem_map_of_mem (List.mem_of_getElem? hn0)
+        exact hwf.attMerge dd.depth (dd.next.map (·.state)) var _ h1' hnv hXne hXsub hXV hH1
+  · intro q' _ n' hn' d hd
+    rcases relaxLayer_states cfg dd.layers dd.next (List.range dd.next.length) lg q' n' hn' with ⟨n0, hn0, hs⟩ | hs
+    · rw [hs] at hd ⊢
+      exact hwf.vstep dd.depth _ var n0.state d hnv (List.mem_map_of_mem hn0) (hI.valid n0 hn0) hd
+    · rw [hs] at hd ⊢
+      exact hwf.vstepMerge dd.depth (dd.next.map (·.state)) var _ d hnv hXne hXsub hXV hd
   · exact hpost.range B (Bd B dd.layers.length) hsrc (Bd_nonneg hB.nonneg _)
       ⟨fun n hn => ⟨hI.rngN n hn, hI.arcs n hn⟩, fun q _ u hu => by
         obtain ⟨a, ha, p, hp, _⟩ := hI.att hne u (List.mem_of_getElem? hu)
         exact ⟨a, ha, p, hp⟩⟩
 
+/-- the un-relativised hypotheses are the instance `V := fun _ _ => True` -/
+theorem wfRel_of_global {P : Problem S} {R : Relax S} {H : Nat → S → EInt} (hP : Potential P H) (hR : RubOk R H)
+    (hM : MergeOk R H) (hAM : AttMerge P R H) : WfRel P R H (fun _ _ => True) where
+  vstep := fun _ _ _ _ _ _ _ _ _ => trivial
+  vstepMerge := fun _ _ _ _ _ _ _ _ _ _ => trivial
+  vmerge := fun _ _ _ _ => trivial
+  att := fun k L x s h hnv hs _ hH => hP.att k L x s h hnv hs hH
+  attMerge := fun k L x X h hnv hX hsub _ hH => hAM k L x X h hnv hX hsub hH
+  term := fun k L s h hnv hs _ hH => by
+    rw [hP.term k L s hnv hs] at hH; cases hH; exact Int.le_refl _
+  rub := fun k s h _ hH => hR k s h hH
+  merge := fun k X u src d c h hu _ hH => hM k X u src d c h hu hH
+
 /-- the hypotheses of C06 that the loop needs -/
-structure Hyp (cfg : Cfg S K) (H : Nat → S → EInt) (B o : Int) : Prop where
+structure Hyp (cfg : Cfg S K) (H : Nat → S → EInt) (V : Nat → S → Prop) (B o : Int) : Prop where
   rel : cfg.ctype = .relaxed
   cache : cfg.useCache = false
   dom : cfg.dom = none
   W : 1 ≤ cfg.width
-  P : Potential cfg.P H
-  R : RubOk cfg.R H
-  M : MergeOk cfg.R H
-  AM : AttMerge cfg.P cfg.R H
-  B : NoClamp cfg.P cfg.R cfg.root.value B
+  wf : WfRel cfg.P cfg.R H V
+  B : NoClampDom cfg.P cfg.R cfg.root.value B
   clamp : ∀ x, o ≤ x → clamp x > cfg.lb
 
-theorem stepLayer_inv (cfg : Cfg S K) (H : Nat → S → EInt) (B o : Int) (hy : Hyp cfg H B o) (dd : DD S K) (var : Nat)
+theorem stepLayer_inv (cfg : Cfg S K) (H : Nat → S → EInt) (V : Nat → S → Prop) (B o : Int) (hy : Hyp cfg H V B o) (dd : DD S K) (var : Nat)
     (hnv : cfg.P.nextVar dd.depth (dd.next.map (·.state)) = some var)
-    (hlen : dd.layers.length ≤ cfg.P.nbVars) (hI : Inv H B o dd) :
-    ∃ dd', stepLayer cfg dd var = (some dd', .ok) ∧ Inv H B o dd' ∧ dd'.layers.length = dd.layers.length + 1 := by
+    (hlen : dd.layers.length ≤ cfg.P.nbVars) (hI : Inv H V B o dd) :
+    ∃ dd', stepLayer cfg dd var = (some dd', .ok) ∧ Inv H V B o dd' ∧ dd'.layers.length = dd.layers.length + 1 := by
   have hne : dd.next ≠ [] := by
     obtain ⟨n, hn, _⟩ := hI.cover
     exact List.ne_nil_of_mem hn
   have key : ∃ sq, squash cfg dd dd.next (List.range dd.next.length) = some sq ∧
-      SqPost cfg H B o dd var sq.1 sq.2.1 := by
+      SqPost cfg H V B o dd var sq.1 sq.2.1 := by
     apply squash_elim cfg dd dd.next (List.range dd.next.length) hy.rel hy.W
-      (fun r => ∃ sq, r = some sq ∧ SqPost cfg H B o dd var sq.1 sq.2.1)
+      (fun r => ∃ sq, r = some sq ∧ SqPost cfg H V B o dd var sq.1 sq.2.1)
     · intro c1 c2 lel
-      exact ⟨_, rfl, sqpost_relax cfg H B o dd var dd.log hy.P hy.M hy.AM hy.B hy.W hnv hlen c1 c2 hI⟩
+      exact ⟨_, rfl, sqpost_relax cfg H V B o dd var dd.log hy.wf hy.B hy.W hnv hlen c1 c2 hI⟩
     · intro lel
-      exact ⟨_, rfl, sqpost_id cfg H B o dd var hy.P hnv hI⟩
+      exact ⟨_, rfl, sqpost_id cfg H V B o dd var hy.wf hnv hI⟩
   obtain ⟨sq, hsq, hpost⟩ := key
   obtain ⟨dd', hst, hl, hn, hd⟩ := stepLayer_ok cfg dd var hne hy.cache hy.dom sq hsq
-  refine ⟨dd', hst, expand_inv cfg H B o dd dd' var sq.1 sq.2.1 sq.2.2.1 hy.R hy.B hy.clamp hlen hI hpost hl hn hd, ?_⟩
+  refine ⟨dd', hst, expand_inv cfg H V B o dd dd' var sq.1 sq.2.1 sq.2.2.1 hy.wf.rub hy.B hy.clamp hlen hI hpost hl hn hd, ?_⟩
   rw [hl, List.length_append, List.length_singleton]
 
-theorem stepLayer_some (cfg : Cfg S K) (H : Nat → S → EInt) (B o : Int) (hy : Hyp cfg H B o) (dd : DD S K) (var : Nat)
+theorem stepLayer_some (cfg : Cfg S K) (H : Nat → S → EInt) (V : Nat → S → Prop) (B o : Int) (hy : Hyp cfg H V B o) (dd : DD S K) (var : Nat)
     (hne : dd.next ≠ []) : ∃ dd', stepLayer cfg dd var = (some dd', .ok) := by
   have key : ∃ sq, squash cfg dd dd.next (List.range dd.next.length) = some sq := by
     apply squash_elim cfg dd dd.next (List.range dd.next.length) hy.rel hy.W (fun r => ∃ sq, r = some sq)
@@ -1295,10 +1445,11 @@ theorem stepLayer_some (cfg : Cfg S K) (H : Nat → S → EInt) (B o : Int) (hy 
   exact ⟨dd', hst⟩
 
 /-- `Inv` does not depend on the log / poll counter -/
-theorem Inv.congr {H : Nat → S → EInt} {B o : Int} {dd dd' : DD S K} (h : Inv H B o dd)
-    (h1 : dd'.layers = dd.layers) (h2 : dd'.next = dd.next) (h3 : dd'.depth = dd.depth) : Inv H B o dd' := by
-  obtain ⟨a, b, c, d, e⟩ := h
+theorem Inv.congr {H : Nat → S → EInt} {V : Nat → S → Prop} {B o : Int} {dd dd' : DD S K} (h : Inv H V B o dd)
+    (h1 : dd'.layers = dd.layers) (h2 : dd'.next = dd.next) (h3 : dd'.depth = dd.depth) : Inv H V B o dd' := by
+  obtain ⟨v, a, b, c, d, e⟩ := h
   constructor
+  · rw [h2, h3]; exact v
   · rw [h2, h3]; exact a
   · rw [h1, h2]; exact b
   · rw [h2]; exact c
@@ -1322,8 +1473,8 @@ theorem buildLoop_some (cfg : Cfg S K) (fuel : Nat) (dd : DD S K) (var : Nat)
   simp only [h, hst]
   rfl
 
-theorem buildLoop_cover (cfg : Cfg S K) (H : Nat → S → EInt) (B o : Int) (hy : Hyp cfg H B o) :
-    ∀ (fuel : Nat) (dd : DD S K), Inv H B o dd → dd.layers.length + fuel ≤ cfg.P.nbVars + 2 →
+theorem buildLoop_cover (cfg : Cfg S K) (H : Nat → S → EInt) (V : Nat → S → Prop) (B o : Int) (hy : Hyp cfg H V B o) :
+    ∀ (fuel : Nat) (dd : DD S K), Inv H V B o dd → dd.layers.length + fuel ≤ cfg.P.nbVars + 2 →
       (buildLoop cfg none fuel dd).2 = .ok →
       ∃ n ∈ (buildLoop cfg none fuel dd).1.next, o ≤ n.value := by
   intro fuel
@@ -1335,13 +1486,11 @@ theorem buildLoop_cover (cfg : Cfg S K) (H : Nat → S → EInt) (B o : Int) (hy
     | none =>
       rw [(buildLoop_none cfg fuel dd hnv).2]
       obtain ⟨n, hn, h, hH, hle⟩ := hI.cover
-      have := hy.P.term dd.depth _ n.state hnv (List.mem_map_of_mem hn)
-      rw [this] at hH
-      cases hH
+      have := hy.wf.term dd.depth _ n.state h hnv (List.mem_map_of_mem hn) (hI.valid n hn) hH
       exact ⟨n, hn, by omega⟩
     | some var =>
       obtain ⟨dd1, h1, h2, h3, hstep⟩ := buildLoop_some cfg fuel dd var hnv
-      have hI1 : Inv H B o dd1 := hI.congr h1 h2 h3
+      have hI1 : Inv H V B o dd1 := hI.congr h1 h2 h3
       cases fuel with
       | zero =>
         -- the last unit of fuel cannot be spent on a successful layer: the next call crashes
@@ -1349,11 +1498,11 @@ theorem buildLoop_cover (cfg : Cfg S K) (H : Nat → S → EInt) (B o : Int) (hy
         have hne : dd1.next ≠ [] := by
           obtain ⟨n, hn, _⟩ := hI1.cover
           exact List.ne_nil_of_mem hn
-        obtain ⟨dd', hst⟩ := stepLayer_some cfg H B o hy dd1 var hne
+        obtain ⟨dd', hst⟩ := stepLayer_some cfg H V B o hy dd1 var hne
         rw [hstep dd' hst] at hok
         simp [buildLoop] at hok
       | succ fuel' =>
-        obtain ⟨dd', hst, hI', hl'⟩ := stepLayer_inv cfg H B o hy dd1 var (by rw [h2, h3]; exact hnv)
+        obtain ⟨dd', hst, hI', hl'⟩ := stepLayer_inv cfg H V B o hy dd1 var (by rw [h2, h3]; exact hnv)
           (by rw [h1]; omega) hI1
         rw [hstep dd' hst] at hok ⊢
         exact ih dd' hI' (by rw [hl', h1]; omega) hok
@@ -1410,9 +1559,10 @@ theorem compile_ok (cfg : Cfg S K) (cache : Cache S) (store : DomStore S K) (pol
   | cutoff => cases h
   | crash => cases h
 
-theorem init_inv (cfg : Cfg S K) (H : Nat → S → EInt) (B o : Int) (cache : Cache S) (store : DomStore S K) (polls : Nat)
-    (hB : NoClamp cfg.P cfg.R cfg.root.value B) (ho : optOf H cfg.root = some o) :
-    Inv H B o (initDD cfg cache store polls) := by
+theorem init_inv (cfg : Cfg S K) (H : Nat → S → EInt) (V : Nat → S → Prop) (B o : Int) (cache : Cache S)
+    (store : DomStore S K) (polls : Nat) (hV : V cfg.root.depth cfg.root.state)
+    (hB : NoClampDom cfg.P cfg.R cfg.root.value B) (ho : optOf H cfg.root = some o) :
+    Inv H V B o (initDD cfg cache store polls) := by
   unfold optOf EInt.addI at ho
   cases hH : H cfg.root.depth cfg.root.state with
   | none => rw [hH] at ho; cases ho
@@ -1420,6 +1570,10 @@ theorem init_inv (cfg : Cfg S K) (H : Nat → S → EInt) (B o : Int) (cache : C
     rw [hH] at ho
     simp only [Option.map_some, Option.some.injEq] at ho
     constructor
+    · intro n hn
+      simp only [initDD, List.mem_cons, List.not_mem_nil, or_false] at hn
+      subst hn
+      exact hV
     · refine ⟨_, List.mem_cons_self, h0, hH, ?_⟩
       show o ≤ cfg.root.value + h0
       omega
